@@ -335,20 +335,30 @@ class Agent(dbus.service.Object):
         try:
             ctr = self._fwd_queue.pop(0)
 
-            for blk in ctr.block_type(PreviousNodeBlock):
+            # the lists are changed by remove_block()
+            for blk in tuple(ctr.block_type(PreviousNodeBlock)):
                 ctr.remove_block(blk)
             ctr.add_block(CanonicalBlock() / PreviousNodeBlock(node=self._config.node_id))
 
             for blk in ctr.block_type(HopCountBlock):
                 blk.payload.count += 1
+                # the received encoding is stale now
+                blk.delfieldval('btsd')
 
-            for blk in ctr.block_type(BundleAgeBlock):
+            rx_age = None
+            for blk in tuple(ctr.block_type(BundleAgeBlock)):
+                if rx_age is None or blk.payload.age > rx_age:
+                    rx_age = blk.payload.age
                 ctr.remove_block(blk)
             create_dtntime = ctr.bundle.primary.create_ts.getfieldval('dtntime')
+            now_dtntime = self.timestamp().getfieldval('dtntime')
             if create_dtntime != 0:
-                now_dtntime = self.timestamp().getfieldval('dtntime')
                 age = now_dtntime - create_dtntime
                 ctr.add_block(CanonicalBlock() / BundleAgeBlock(age=age))
+            elif rx_age is not None:
+                # source without a clock: add the time held at this node
+                held = now_dtntime - DtnTimeField.datetime_to_dtntime(ctr.actions['receive'])
+                ctr.add_block(CanonicalBlock() / BundleAgeBlock(age=(rx_age + max(held, 0))))
 
             self.send_bundle(ctr)
             # Status after send 'success'
